@@ -44,9 +44,12 @@ def tier_for(sz, quick_sizes):
 
 # ---------------------------------------------------------------------------------------------------
 # K1 src/lib.rs
-add('k1_lib', 'copy_bytes_memmove_80', props=['C01', 'C05'], tier='q', cost=60)
-add('k1_lib', 'copy_bytes_memmove_260', props=['C01', 'C05'], tier='t', cost=500)
-add('k1_lib', 'copy_bytes_large_forwards', props=['C01', 'C05'], tier='q', cost=2)
+add('k1_lib', 'copy_bytes_memmove_80', 'copy_bytes_contract::<80>()', props=['C01', 'C05'], tier='q', cost=60, macro='p')
+add('k1_lib', 'copy_bytes_memmove_260', 'copy_bytes_contract::<260>()', props=['C01', 'C05'], tier='t', cost=500, macro='p')
+add('k1_lib', 'copy_bytes_large_forwards', 'copy_bytes_large_h()', props=['C01', 'C05'], tier='q', cost=2, macro='p',
+    attrs=['#[kani::stub(core::ptr::copy, crate::kani_verif::k1_lib::stub_copy_record)]', '#[kani::unwind(2)]'])
+add('k1_lib', 'copy_bytes_unwound_b8', 'copy_bytes_unwound_h()', props=['C01'], tier='t', kind='bounded', bound='count < 8 in a 16-byte object, loops unwound (no loop contracts)',
+    attrs=['#[kani::unwind(9)]'], flags=['nolc'], cost=10, macro='p')
 
 # ---------------------------------------------------------------------------------------------------
 # K2 insert / push
@@ -289,7 +292,7 @@ for sz, N, S in [('e8', 2, 15), ('e3', 3, 8), ('e8', 1, 0), ('e12', 2, 23), ('e8
 for sz in ['e8', 'z0', 'e3', 'a64', 'e16']:
     add('k1_mem', 'empty_' + sz, 'empty_h::<%s>()' % TY[sz], props=['C12', 'C17', 'C19'], tier='q' if sz in ('e8', 'a64') else 't', cost=1, macro='p')
 add('k1_mem', 'dangling_all', 'dangling_h()', props=['C12'], tier='q', cost=3, macro='p')
-add('k1_mem', 'stack_expand_panics', 'stack_expand_h()', props=['C11'], tier='q', kind='panic', attrs=['#[kani::should_panic]'], allow=[r"mem::Mem::expand", r"Can't change capacity"], cost=1, macro='p')
+add('k1_mem', 'stack_expand_panics', 'stack_expand_h()', props=['C11'], tier='q', kind='panic', attrs=['#[kani::should_panic]'], allow=[r"as mem::Mem>::expand", r"Can't change capacity"], cost=1, macro='p')
 
 
 # ---------------------------------------------------------------------------------------------------
